@@ -43,6 +43,10 @@ func TestC14Xid(t *testing.T) {
 		"Non-trivial: G>=2 and measured overlap (every goroutine observed an id of another goroutine between two of its own / goroutines really ran at the same time); distinct by (G, n, seeds).")
 	c.Assume("interleavings are sampled, not enumerated (the Go scheduler is not controllable): GOMAXPROCS is varied and goroutines start on a barrier; the race detector flags unsynchronised access on any executed schedule")
 
+	if !hooksAvailable {
+		c.Label("hooks_unavailable")
+		c.Assume("built without the verif tag: the id counter cannot be placed below the 32-bit wrap, ids are drawn from wherever the counter stands")
+	}
 	rounds := ev.Scale(40, 400)
 	seed := uint64(envInt("VERIF_SEED", 1))*1315423911 + uint64(envInt("VERIF_SHARD", 0))*2654435761
 	for r := 0; r < rounds; r++ {
@@ -53,9 +57,9 @@ func TestC14Xid(t *testing.T) {
 		}
 		procs := []int{16, 4, 2, 8}[(r/3)%4]
 		runtime.GOMAXPROCS(procs)
-		nearWrap := r%3 == 1
+		nearWrap := r%3 == 1 && hooksAvailable
 		if nearWrap {
-			common.VerifSetXidCounter(0xffffffff - uint32(seed>>uint(r%13))%uint32(n*g/2+1))
+			hookSetXidCounter(0xffffffff - uint32(seed>>uint(r%13))%uint32(n*g/2+1))
 		}
 		mode := r % 4 // 0 shared generator, 1 own generators, 2 constructors, 3 mixed
 		// in every other round extra goroutines parse frames while the ids are drawn: parsing allocates its
